@@ -20,6 +20,9 @@ import (
 // root* is reached (a goroutine entry, the connection loop, the frame executor,
 // or a function without synchronous static callers).
 
+// ipExhausted counts searches that hit their step budget.
+var ipExhausted int
+
 var theProg *Prog // set by main: lets the plain helpers (reachFrom, mustPrecede, …) be interprocedural
 
 const ipMaxDepth = 5
@@ -391,6 +394,7 @@ var curStack []*ssa.Call
 func (s *ipSearch) scanF(b *ssa.BasicBlock, from int, stack []*ssa.Call, facts *factSet) bool {
 	s.visited++
 	if s.visited > 200000 {
+		ipExhausted++ // reported by the framework as an undecided obligation: no verdict rests on a cut-off search
 		return false
 	}
 	for i := from; i < len(b.Instrs); i++ {
